@@ -1,9 +1,10 @@
 SPECIFICATION Spec
 CONSTANTS
-  Pool = {"a", "b", "c", "d", "root"}
+  Pool = {"a", "b", "c"}
   MaxItems = 3
   MaxTargets = 1
   MaxOdd = 0
-  Stretching = FALSE
-INVARIANT NeverCycle
+  Stretching = TRUE
+INVARIANT EmitB
+INVARIANT RoundTrip
 CHECK_DEADLOCK FALSE
